@@ -25,7 +25,7 @@ StagesOf(F) == [i \in 1..5 |-> (Order[i] \in F) \/ (Order[i] \in {"v6", "v4"} /\
 Kinds == {"blank", "spaces", "plain", "plain-tabs", "pwd", "v4", "v6", "v4-mask", "word", "as", "pwd+v4", "word+as", "v4+as",
           "pwd-looks-like-v4", "word-in-pwd-line", "v6+v4", "crowded",
           "scrubline", "nodigit-pwd", "v4-mask-zeros", "pwd-fixed-quoted", "v6-tail", "pwd-reserved-caps",
-          "keystring-scrub", "standby-keystring", "v6-with-word", "resv-word", "key-quoted-twice"}
+          "keystring-scrub", "standby-keystring", "v6-with-word", "resv-word", "key-quoted-twice", "doubled-enclosers", "edge-unicode-space"}
 ItemsOf(k) ==
   CASE k = "blank" -> << >> [] k = "spaces" -> << >> [] k = "plain" -> <<"p", "p", "p">> [] k = "plain-tabs" -> <<"p", "p">>
     [] k = "pwd" -> <<"p", "pwd">> [] k = "v4" -> <<"p", "p", "v4">> [] k = "v6" -> <<"p", "p", "v6">>
@@ -43,6 +43,8 @@ ItemsOf(k) ==
     [] k = "standby-keystring" -> <<"p", "p", "p", "p", "p", "p", "pwd", "p", "p">>   \* an early precise pattern AND that scrub pattern match
     [] k = "v6-with-word" -> <<"p", "v6">>                                   \* a listed word inside the text of an address
     [] k = "key-quoted-twice" -> <<"p", "pwd", "p", "p", "p", "p">>             \* a quoted secret and a second quoted string later on the line
+    [] k = "doubled-enclosers" -> <<"p", "p", "p", "p", "p", "p", "p">>         \* tokens that consist of doubled enclosing characters
+    [] k = "edge-unicode-space" -> <<"p", "p">>                               \* form feed / no-break / ideographic space at the line edges
     [] k = "resv-word" -> <<"p", "p", "p">>                                  \* reserved words that CONTAIN a listed word, the last one at the end of the line
 
 Stage(f, items) == [i \in 1..Len(items) |-> IF items[i] = f THEN f \o "!" ELSE items[i]]
